@@ -320,6 +320,10 @@ func Run(r *sim.R, prop string) {
 		topUnpackerCase(r, prop)
 		return
 	}
+	if t.Chance(1, 24, "evaluation-fault-below-generic-target") {
+		ifaceFaultCase(r, prop)
+		return
+	}
 	if t.Chance(1, 24, "inline-field-with-policy") {
 		inlinePolicyCase(r, prop)
 		return
